@@ -46,4 +46,36 @@ theorem wcscpy_s_C04 (cfg : Cfg) (dest dmax src : Nat) (st : St) (hs : Setting s
         (∀ a, ¬ (dest ≤ a ∧ a < dest + dmax) → st'.data a = st.data a)) := by
   rw [wcscpy_eq]; exact strcpyG_C04 _ cfg dest dmax src st hs hrw hd hpos hle hne
 
+/-- strncpy_s / strcat_s / strncat_s: every failing exit on a usable dest -/
+theorem strncpy_s_C04 (cfg : Cfg) (dest dmax src slen : Nat) (st : St) (hs : Setting st)
+    (hrw : dest ≠ 0 → RW st dest dmax) (hd : dest ≠ 0) (hpos : 0 < dmax) (hle : dmax ≤ RSIZE_MAX_STR) :
+    ∃ code st', exec (strncpy_s cfg dest dmax src slen none none) st = .ok (code, st') ∧
+      (code ≠ EOK → st'.data dest = 0) ∧
+      (code = ESNOSPC ∨ code = ESOVRLP ∨ code = ESUNTERM → cfg.slack = true → ∀ i, i < dmax → st'.data (dest + i) = 0) ∧
+      (∀ a, ¬ (dest ≤ a ∧ a < dest + dmax) → st'.data a = st.data a) := by
+  obtain ⟨code, st', he, hp, h⟩ := strncpyG_safe _ cfg dest dmax src slen st hs.all hrw (Nat.le_refl _)
+  obtain ⟨_, h1, h2⟩ := h hd hpos hle
+  exact ⟨code, st', he, h1, h2, hp.frame⟩
+
+theorem strcat_s_C04 (cfg : Cfg) (dest dmax src : Nat) (st : St) (hs : Setting st)
+    (hrw : dest ≠ 0 → RW st dest dmax) (hd : dest ≠ 0) (hpos : 0 < dmax) (hle : dmax ≤ RSIZE_MAX_STR) :
+    ∃ code st', exec (strcat_s cfg dest dmax src none) st = .ok (code, st') ∧
+      (code ≠ EOK → st'.data dest = 0) ∧
+      (code = ESNOSPC ∨ code = ESOVRLP ∨ code = ESUNTERM → cfg.slack = true → ∀ i, i < dmax → st'.data (dest + i) = 0) ∧
+      (∀ a, ¬ (dest ≤ a ∧ a < dest + dmax) → st'.data a = st.data a) := by
+  obtain ⟨code, st', he, hp, h⟩ := strcatG_safe _ cfg dest dmax src st hs.all hrw
+  obtain ⟨_, h1, h2⟩ := h hd hpos hle
+  exact ⟨code, st', he, h1, h2, hp.frame⟩
+
+theorem strncat_s_C04 (cfg : Cfg) (dest dmax src slen : Nat) (st : St) (hs : Setting st)
+    (hrw : dest ≠ 0 → RW st dest dmax) (hd : dest ≠ 0) (hpos : 0 < dmax) (hle : dmax ≤ RSIZE_MAX_STR)
+    (hslen : slen ≠ 0) :
+    ∃ code st', exec (strncat_s cfg dest dmax src slen none none) st = .ok (code, st') ∧
+      (code ≠ EOK → st'.data dest = 0) ∧
+      (code = ESNOSPC ∨ code = ESOVRLP ∨ code = ESUNTERM → cfg.slack = true → ∀ i, i < dmax → st'.data (dest + i) = 0) ∧
+      (∀ a, ¬ (dest ≤ a ∧ a < dest + dmax) → st'.data a = st.data a) := by
+  obtain ⟨code, st', he, hp, h⟩ := strncatG_safe _ cfg dest dmax src slen st hs.all hrw hslen (Nat.le_refl _)
+  obtain ⟨_, h1, h2⟩ := h hd hpos hle
+  exact ⟨code, st', he, h1, h2, hp.frame⟩
+
 end SafeC.Props.C04
